@@ -20,7 +20,19 @@ pub fn plans(prop: Prop) -> Vec<Value> {
     match prop {
         // S3: a 1.20 owner emits an event with an ill-formed payload (c % 16 == 15) to a 1.14 and a
         // 1.17 subscriber.
-        Prop::C11 => vec![plan(
+        Prop::C11 => {
+            let mut v = c11_s3();
+            v.extend(intro_scenarios());
+            v
+        }
+        Prop::C12 => c12_grid(),
+        Prop::C09 => intro_scenarios(),
+        _ => vec![],
+    }
+}
+
+fn c11_s3() -> Vec<Value> {
+        vec![plan(
             0x53_33,
             vec![
                 actor(
@@ -50,10 +62,71 @@ pub fn plans(prop: Prop) -> Vec<Value> {
                     json!([["WaitService", 0, 0, 0, 0], ["SubscribeEvent", 0, 0, 0, 0], ["Sync", 0, 0, 0, 0]]),
                 ),
             ],
-        )],
-        Prop::C12 => c12_grid(),
-        _ => vec![],
+        )]
+}
+
+/// Introspection database scenarios (C09 / C11): three registrants of one type leaving in every
+/// order (clean or by transport error), a querier asking before and after, optionally a fourth
+/// registrant joining after the first has left and a stranger answering with the serial the broker
+/// has in flight. 48 plans; the schedule of each comes from its seed.
+fn intro_scenarios() -> Vec<Value> {
+    let mut plans = Vec::new();
+    let stalls = [[8u32, 24, 40], [8, 40, 24], [24, 8, 40], [24, 40, 8], [40, 8, 24], [40, 24, 8]];
+    for (pi, perm) in stalls.iter().enumerate() {
+        for ending in ["EndShutdown", "EndTransportError"] {
+            for stranger in [false, true] {
+                for late in [false, true] {
+                    let mut actors = Vec::new();
+                    for (ri, st) in perm.iter().enumerate() {
+                        let mut script = vec![json!(["RegisterIntrospection", 0, 0, 0, 0]), json!(["Sync", 0, 0, 0, 0])];
+                        if ri == 1 {
+                            script.push(json!(["Stall", 4, 0, 0, 0]));
+                            script.push(json!(["QueryIntrospectionReply", 0, 1, 0, 0]));
+                        }
+                        script.push(json!(["Stall", st, 0, 0, 0]));
+                        script.push(json!([ending, 0, 0, 0, 0]));
+                        actors.push(actor(20, false, false, Value::Array(script)));
+                    }
+                    // The querier.
+                    actors.push(actor(
+                        if pi % 2 == 0 { 20 } else { 17 },
+                        false,
+                        false,
+                        json!([
+                            ["Stall", 5, 0, 0, 0],
+                            ["QueryIntrospection", 0, 0, 0, 0],
+                            ["Stall", 30, 0, 0, 0],
+                            ["QueryIntrospection", 0, 0, 0, 0],
+                            ["Stall", 30, 0, 0, 0],
+                            ["QueryIntrospection", 0, 0, 0, 0],
+                            ["Sync", 0, 0, 0, 0],
+                        ]),
+                    ));
+                    if late {
+                        let mut a = actor(
+                            20,
+                            false,
+                            false,
+                            json!([["RegisterIntrospection", 0, 0, 0, 0], ["Sync", 0, 0, 0, 0], ["QueryIntrospectionReply", 0, 1, 0, 0], ["Stall", 20, 0, 0, 0], ["Sync", 0, 0, 0, 0]]),
+                        );
+                        a["start_after"] = json!(1);
+                        actors.push(a);
+                    }
+                    if stranger {
+                        actors.push(actor(
+                            20,
+                            false,
+                            true,
+                            json!([["Stall", 9, 0, 0, 0], ["QueryIntrospectionReply", 0, 1, 3, 0], ["Stall", 20, 0, 0, 0], ["QueryIntrospectionReply", 0, 1, 3, 0]]),
+                        ));
+                    }
+                    let seed = 0x1270_0000u64 + plans.len() as u64;
+                    plans.push(plan(seed, actors));
+                }
+            }
+        }
     }
+    plans
 }
 
 /// C12: the handshake grid and the gate table, enumerated completely in every batch.
